@@ -204,13 +204,13 @@ def oracle_transpose(ctx, obs):
     if bad_nonsquare:
         first = min(bad_nonsquare, key=lambda b: (min(b["rows"], b["cols"]) < 2, b["rows"] * b["cols"], b["rows"]))
         npanic = sum(1 for b in bad_nonsquare if b["panic"])
-        ctx.violation("S5", f"transpose_vec is only correct for square (and single-column) matrices: e.g. transpose_vec((0..{first['rows'] * first['cols']}).collect(), {first['cols']}) "
+        ctx.violation("S5", f"transpose_vec is not the matrix transpose on non-square matrices: e.g. transpose_vec((0..{first['rows'] * first['cols']}).collect(), {first['cols']}) "
                             f"({first['rows']}x{first['cols']}) " + (f"panics: {first['panic']}" if first["panic"] else f"returns {first['got']} instead of {first['expected']}") +
                             f"; {len(bad_nonsquare)} of the non-square shapes up to 12x12 fail ({npanic} panic, {len(bad_nonsquare) - npanic} return a non-transpose)",
                       {"kind": "transpose_nonsquare"},
                       {"call": f"spdcalc::utils::transpose_vec((0..{first['rows'] * first['cols']}u32).collect(), {first['cols']})", "first": first,
                        "failing_shapes": [[b["rows"], b["cols"], "panic" if b["panic"] else "wrong"] for b in bad_nonsquare],
-                       "coq_witness": "coq/Findings/C14_transpose.v: C14_transpose_2x3_refuted, C14_transpose_3x2_refuted, C14_transpose_shapes_12"})
+                       "theorem": "coq/Props/C14.v: C14_transpose (all shapes)"})
     return bad_nonsquare
 
 
@@ -397,6 +397,8 @@ def correspondence(ctx, obs, quick):
             add("idx1", o, "(" + f"flat_map (fun c => map (fun r => get_1d_index c r {cols}) (seq 0 12)) (seq 0 {cols})" + ")")
         elif k == "transpose":
             add("tr", o, f"transpose_vec (seq 0 {o['rows'] * o['cols']}) {o['cols']}")
+        elif k == "transpose_ragged":
+            add("tr", o, f"transpose_vec (seq 0 {o['len']}) {o['cols']}")
         elif k == "space" and nsp < (12 if quick else 120):
             nsp += 1
             sp = lambda s: "((%s, %s, %d), (%s, %s, %d))" % (cq(H(s[0][0])), cq(H(s[0][1])), s[0][2], cq(H(s[1][0])), cq(H(s[1][1])), s[1][2])
@@ -412,7 +414,7 @@ def correspondence(ctx, obs, quick):
     # canaries: deliberately wrong expectations must be rejected by the model comparison
     canaries = [("canary1", f"check_seq1d {cq(0)} {cq(4)} 5 [{cq(0)}; {cq(1)}; {cq(2)}; {cq(3)}; {cq(5)}] {cq(TOL_MODEL)}", "[4]"),
                 ("canary2", f"check_seq2d {cq(0)} {cq(1)} 2 {cq(0)} {cq(2)} 3 {cqpairs([(0, 0), (0, 1), (0, 2), (1, 0), (1, 1), (1, 2)])} {cq(TOL_MODEL)}", None),
-                ("canary3", "transpose_vec (seq 0 6) 3", "Panic")]
+                ("canary3", "transpose_vec (seq 0 7) 3", "Ok [0; 3; 1; 4; 2; 5]")]
     res = run_compute_cases(ctx, "C14", IMPORTS, "", exprs + [(c[0], c[1]) for c in canaries])
     for cid, _, expect in canaries:
         got = (res.get(cid) or "").replace("%nat", "")
@@ -442,7 +444,7 @@ def correspondence(ctx, obs, quick):
             nok += 1
             ctx.cov["discharged"] += 1
         else:
-            brief = {kk: vv for kk, vv in o.items() if kk in ("kind", "cls", "s", "e", "n", "nx", "ny", "x0", "x1", "y0", "y1", "rows", "cols", "from", "sched")}
+            brief = {kk: vv for kk, vv in o.items() if kk in ("kind", "cls", "s", "e", "n", "nx", "ny", "x0", "x1", "y0", "y1", "rows", "cols", "len", "from", "sched")}
             ctx.case_failures.append({"case": cid, "model_says": (got or "no result")[:300], "input": brief})
             ctx.violation("S4", f"generated model and implementation disagree ({kind}: {json.dumps(brief)[:200]}; model check returned {(got or 'nothing')[:80]})",
                           {"kind": "model_mismatch", "what": kind}, {"case": cid, "model": (got or "")[:2000], "observation": brief}, found_input=False)
@@ -489,6 +491,16 @@ def selftest(ctx, obs):
         before = len(probe.violations); oracle_steps2d(probe, a); n_expected += 1
         if len(probe.violations) == before:
             ctx.note("oracle self-test: a column-major 2-D observation was not flagged")
+    # a non-square shape behaving like the former in-place swap (2x3 panics, 3x2 wrong) must be reported
+    tr = [copy.deepcopy(o) for o in obs if o["kind"] == "transpose"]
+    for o in tr:
+        if (o["rows"], o["cols"]) == (2, 3):
+            o["out"], o["panic"] = None, "index out of bounds: the len is 6 but the index is 6"
+        if (o["rows"], o["cols"]) == (3, 2):
+            o["out"] = [0, 2, 1, 3, 4, 5]
+    before = len(probe.violations); bad = oracle_transpose(probe, tr); n_expected += 1
+    if len(probe.violations) == before or len(bad) != 2:
+        ctx.note("oracle self-test: a wrong non-square transpose was not flagged")
     return n_expected, len(probe.violations)
 
 
@@ -520,9 +532,11 @@ def run(ctx):
     ctx.cov["translated_spans"] = {k: v for k, v in spans.items() if k.startswith("grid.") or k.startswith("ranges.")}
     for m in msgs:
         ctx.proof_failures.append(("Gen/Ranges.v" if "generator ranges" in m else "Gen/Grid.v", "translator", m))
-    proved = (not msgs) and prove(ctx, "C14", extra_targets=["Model/GridCheck.vo", "Proofs/C14_casetac.vo"])
-    # the finding's witnesses: built separately, a failure here is only a note (a repaired tree must not alarm)
-    okf, _, _ = coq_build(ctx, ["Findings/C14_transpose.vo"]) if not msgs else (False, [], "")
+    proved = (not msgs) and prove(ctx, "C14", extra_targets=["Model/GridCheck.vo", "Proofs/C14_casetac.vo", "Props/C14_pins.vo"])
+    # F6 is fixed (fd4cfc7); its historical record is built separately and a failure there is only a note
+    okf, _, _ = coq_build(ctx, ["Findings/C14_transpose.vo"]) if not msgs else (True, [], "")
+    if not okf:
+        ctx.note("Findings/C14_transpose.v (historical record of the fixed finding F6) did not build")
     n = 1 if quick else 6
     obs = run_harness(ctx, binp, ["c14", ctx.seed, n, "grid"])
     if not quick:
@@ -530,10 +544,6 @@ def run(ctx):
         obs += [o for o in run_harness(ctx, binp, ["c14", ctx.seed + 7919, n, "grid"]) if o["kind"] in ("steps", "steps2d", "space", "transpose_f")]
     obs += run_harness(ctx, binp, ["c14", ctx.seed, 2 if quick else 12, "range"], timeout=900)
     bad_nonsquare = oracle(ctx, obs)
-    if bad_nonsquare and not okf:
-        ctx.note("Findings/C14_transpose.v did not build although the harness still observes the non-square failure")
-    if not bad_nonsquare and not okf:
-        ctx.note("finding F6 (transpose_vec on non-square matrices) no longer reproduces on this tree")
     for o in obs:
         if o["kind"] == "steps" and o["n"] >= 3:
             ctx.sample({"call": f"Steps({f64_of_hex(o['s'])!r}, {f64_of_hex(o['e'])!r}, {o['n']})", "first": f64_of_hex(o["fwd"][0]), "last": f64_of_hex(o["fwd"][-1])}, limit=3)
@@ -552,7 +562,7 @@ def run(ctx):
                 break
     ctx.cov["rule"] = ("1-D: 8 endpoint classes (ascending, descending, degenerate, dyadic, optical frequencies, wavelengths, mixed sign, 18 decades) x counts "
                        "{0,1,2,3,300, uniform 0..300}; 2-D: the same classes per axis, counts incl. 0, 1, 2x3, 300; index maps: full table for cols 1..12 plus random up to 2^40; "
-                       "transpose: every shape 1..12 x 1..12; spaces: random wavelength / frequency (equal and unequal spans) / sum-diff spaces with counts 0..300; "
+                       "transpose: every shape 1..12 x 1..12, plus lengths 0..13 x num_cols 0..4 (ragged / zero columns, model correspondence only); spaces: random wavelength / frequency (equal and unequal spans) / sum-diff spaces with counts 0..300; "
                        "range evaluators: two SPDC setups x three representations x flat lists.  distinct = distinct input bits; empty grids count as trivial")
     ctx.cov["clauses"] = {
         "1-D: n values, first, last, even spacing": "proved (reals, generated Steps::value) + measured 4 ulp",
@@ -564,7 +574,8 @@ def run(ctx):
         "flat (signal, idler) list = grid": "proved for the pairing model (chunk2/flatten2) + validated bit-exact",
         "wavelength <-> frequency endpoints, ascending, round trip": "proved (reals) + interval correspondence 1e-14",
         "frequency <-> sum/diff centre, counts, round trip iff equal spans": "proved (iff, both directions, plus idempotence)",
-        "transpose of any shape": "proved_partial: square (all n) and single-column; non-square REFUTED (Findings/C14_transpose.v) and observed",
+        "transpose of any shape": "proved (all rows x cols incl. 0; generated early return / ranges / read index of the out-of-place loop); ragged lengths and num_cols = 0 characterised; "
+                                  "every shape up to 12x12 observed and compared with the model",
     }
     replay_filter(ctx, want)
     return finish(ctx, assumptions=["binary64 rounding of the grid formulas is measured (<= 4.5 ulp of the axis scale; exact on dyadic inputs), not proved",
